@@ -419,6 +419,10 @@ def run(prog, rep, tier):
     check_scale_exponent(prog, rep)
     rep.rule('DTYPE-all-tensors', 'dtypes of operators over a list of tensors are promoted over '
              'all elements')
+    rep.rule('SITE-shared-inplace', 'stored tensors that may be shared between sites are not '
+             'updated in place')
+    if check_shared_inplace(prog, rep) < 2:
+        raise AnalysisError('SITE-shared-inplace: no in-place update of a stored tensor found')
     if check_dtype_all(prog, rep) < 5:
         raise AnalysisError('DTYPE-all-tensors: dtype assignments in the network classes not found')
     rep.floor('FORM-scale-exponent', 5)
@@ -614,4 +618,63 @@ def check_dtype_all(prog, rep):
                                   (key_text(st)[:70], unparse(firsts[0]), firsts[0].value.value.id),
                                   st.lineno)
     rep.instance('DTYPE-all-tensors', {'dtype_assignments_checked': n})
+    return n
+
+
+# ------------------------------------------------------------------ SITE-shared-inplace
+def check_shared_inplace(prog, rep):
+    """SITE-shared-inplace: enlarge_mps_unit_cell fills self._B with get_B(j, form=None) for j
+    beyond L, i.e. with the SAME tensor objects again. From then on an in-place update of
+    `self._B[i]` (augmented assignment, i-method) changes several sites at once, while the
+    surrounding bookkeeping (norm, forms) accounts for one: stored tensors of a possibly infinite
+    MPS are re-bound, not updated in place."""
+    m = prog.module(MPS)
+    enl = m.functions.get('MPS.enlarge_mps_unit_cell')
+    if enl is None:
+        raise AnalysisError('MPS.enlarge_mps_unit_cell not found')
+    shares = False
+    for st in stmts_of(enl):
+        if isinstance(st, ast.Assign) and any(is_self_attr(t, '_B') for t in st.targets) and \
+                isinstance(st.value, ast.ListComp):
+            e = st.value.elt
+            if isinstance(e, ast.Call) and isinstance(e.func, ast.Attribute) and \
+                    e.func.attr == 'get_B' and not (kwarg(e, 'copy') is not None and
+                                                    unparse(kwarg(e, 'copy')) == 'True'):
+                shares = True
+    rep.instance('SITE-shared-inplace', {'function': 'MPS.enlarge_mps_unit_cell',
+                                         'stores_shared_tensors': shares})
+    n = 1
+    if not shares:
+        return n
+    for q, f in m.functions.items():
+        if not q.startswith('MPS.'):
+            continue
+        for st in stmts_of(f):
+            hit = None
+            if isinstance(st, ast.AugAssign) and isinstance(st.target, ast.Subscript) and \
+                    is_self_attr(st.target.value, '_B'):
+                hit = st
+            elif isinstance(st, ast.Expr) and isinstance(st.value, ast.Call) and isinstance(
+                    st.value.func, ast.Attribute) and isinstance(
+                        st.value.func.value, ast.Subscript) and is_self_attr(
+                            st.value.func.value.value, '_B') and \
+                    st.value.func.attr.startswith('i') and st.value.func.attr[1:2] != 's':
+                hit = st
+            if hit is None:
+                continue
+            gs = guards_of(f, hit)
+            finite = any(pol and ("self.bc == 'finite'" in t or t == 'self.finite')
+                         for t, pol, _ in gs) or any(
+                isinstance(s2, ast.Assert) and unparse(s2.test) in ('self.finite',
+                                                                    "self.bc == 'finite'")
+                and s2.lineno < hit.lineno for s2 in stmts_of(f))
+            n += 1
+            rep.instance('SITE-shared-inplace', {'function': q, 'update': key_text(hit)[:60],
+                                                 'finite_only': finite})
+            if not finite:
+                rep.violation('SITE-shared-inplace', m, q, 'inplace:' + key_text(hit)[:40],
+                              '`%s` updates a stored tensor in place; after '
+                              'enlarge_mps_unit_cell the same object is stored at sites i and '
+                              'i+L, so two sites change while norm / form bookkeeping accounts '
+                              'for one' % key_text(hit)[:60], hit.lineno)
     return n
